@@ -107,14 +107,17 @@ Definition valid_wr (rs : list record) (fmt : Z) : bool :=
                                                                  && match r_pat r with Some p => printable_ok p | None => true end) rs
    else forallb (fun r => printable_ok (r_prefix r) && printable_ok (r_uri r)) rs)%Z.
 
+(* an optional fifth element says how the harness built the converter (constructor / incrementally / by merges); ignored *)
+Definition run_writers4 (rs : val) (fmt syn ex : Z) (obs : val) : val :=
+  match as_records rs with
+  | Some rs' =>
+      let m := model_wobs rs' fmt (negb (Z.eqb syn 0)) (negb (Z.eqb ex 0)) in
+      let same := val_eqb m obs in
+      VList [vbool same; vbool (valid_wr rs' fmt); VInt 1; vbool same; if same then VList [] else m]
+  | None => VList [VInt (-1)] end.
 Definition run_writers (case obs : val) : val :=
   match case with
-  | VList [rs; VInt fmt; VInt syn; VInt ex] =>
-      match as_records rs with
-      | Some rs' =>
-          let m := model_wobs rs' fmt (negb (Z.eqb syn 0)) (negb (Z.eqb ex 0)) in
-          let same := val_eqb m obs in
-          VList [vbool same; vbool (valid_wr rs' fmt); VInt 1; vbool same; if same then VList [] else m]
-      | None => VList [VInt (-1)] end
+  | VList [rs; VInt fmt; VInt syn; VInt ex] => run_writers4 rs fmt syn ex obs
+  | VList [rs; VInt fmt; VInt syn; VInt ex; VInt _] => run_writers4 rs fmt syn ex obs
   | _ => VList [VInt (-1)]
   end.
